@@ -88,7 +88,7 @@ class Harness:
         hr = HarnessResult(name=self.name, engine=self.engine)
         hr.bounds = self.bounds(tier)
         hr.bounds["shards"] = len(results)
-        hr.bounds["budget_cpu_s_per_shard"] = self.budget(tier)
+        hr.bounds["budget_cpu_s_per_shard"] = round(min(self.budget(tier), getattr(self, "_budget_cap", 1e9)), 1)
         hr.functions = repo_env.describe(self.functions())
         hr.assumptions = list(self.assumptions)
         hr.outside = list(self.outside)
@@ -134,12 +134,20 @@ class Harness:
         return hr
 
 
+# total CPU seconds a check may spend in exploration (16 cores): the per-shard budget is capped so that the worst case stays
+# within it; a shard that hits its budget is reported as INCONCLUSIVE (never as exhausted)
+TIER_CPU = {"quick": 16 * 170.0, "thorough": 16 * 1500.0}
+
+
 def run_pooled(harnesses: list, tier: str, seed: int, jobs: int) -> list:
     """All shards of all E1 harnesses share one process pool (longest budgets first)."""
     t0 = time.perf_counter()
     tasks = []
     for h in harnesses:
         tasks.extend(h.tasks(tier, seed))
+    cap = max(5.0, float(os.environ.get("VF_CPU_TOTAL", TIER_CPU[tier])) / max(1, len(tasks)))
+    for h in harnesses:
+        h._budget_cap = cap
     tasks.sort(key=lambda t: -t[0].budget(tier))
     by_h: dict[str, list] = {h.name: [] for h in harnesses}
     if jobs <= 1 or len(tasks) <= 1:
@@ -172,7 +180,7 @@ def _run_shard(task):
         r = engine_xh.explore(
             harness.body,
             params,
-            budget_s=harness.budget(tier),
+            budget_s=min(harness.budget(tier), getattr(harness, "_budget_cap", 1e9)),
             per_path_timeout=harness.per_path_timeout(tier),
             seed=seed * 1000 + idx,
         )
